@@ -292,7 +292,11 @@ def fmt_face(f):
 
 
 def vertex_table(w, raw):
-    """index -> affine position for every vertex of the template mesh `raw` (old symbols and appended ones)"""
+    """the vertices of the template mesh `raw`: original ones and appended ones"""
+    return VTable(w, raw, getattr(w, "n_old", None))
+
+
+def _vertex_table_sym(w, raw):
     ev = w.ev
     V = w.data(raw.fields["vertices"])
     if not isinstance(V, SList):
@@ -314,11 +318,15 @@ class VTable:
                 raise Unknown("vertex container is not the symbolic sequence of the template")
             self.old, self.new, self.base = list(V)[:n_old], list(V)[n_old:], n_old
 
+    @property
+    def items(self):
+        return self.new
+
     def classify(self, i):
         ev = self.w.ev
         i = ev.nums.norm(i) if isinstance(i, Poly) else i
         if self.sym:
-            return classify_index(self.w, self.V, i)
+            return _classify_sym(self.w, self.V, i)
         if isinstance(i, int) and not isinstance(i, bool):
             if 0 <= i < self.base:
                 return "old", i
@@ -342,6 +350,12 @@ class VTable:
 
 
 def classify_index(w, V, i):
+    if isinstance(V, VTable):
+        return V.classify(i)
+    return _classify_sym(w, V, i)
+
+
+def _classify_sym(w, V, i):
     ev = w.ev
     i = ev.nums.norm(i) if isinstance(i, Poly) else i
     if isinstance(i, Sym) and i.kind == "vertex":
@@ -356,6 +370,8 @@ def classify_index(w, V, i):
 
 
 def position_of(w, V, i):
+    if isinstance(V, VTable):
+        return V.position(i)
     kind, k = classify_index(w, V, i)
     if kind == "old":
         return affine(w.ev, V.elem(k))
@@ -370,6 +386,7 @@ def check_surface(w, old_faces, raw, label, centres_of=(), midpoints=True, expec
     centres_of: old faces that may carry a centre vertex; midpoints: old edges may carry a midpoint vertex."""
     ev = w.ev
     out = []
+    n_old = n_old if n_old is not None else getattr(w, "n_old", None)
     T = VTable(w, raw, n_old)
     F = [tuple(f) for f in w.data(raw.fields["faces"])]
     old_faces = [tuple(f) for f in old_faces]
@@ -469,7 +486,7 @@ def check_surface(w, old_faces, raw, label, centres_of=(), midpoints=True, expec
                 continue
             if k not in sides:
                 out.append(Problem("edges", f"{label}: an edge that is not a side of a face of the result is added", f"edge {fmt_face(e)}"))
-        if edges_exact and seen != sides:
+        if edges_exact and seen != sides and Ed:      # (a refinement may also declare no edge at all and leave them to the completion from faces)
             out.append(Problem("edges", f"{label}: the edges of the result are not exactly the sides of its faces",
                                f"missing {sorted(map(lambda s: fmt_face(sorted(s, key=repr)), sides - seen))}"))
     return out
